@@ -340,6 +340,10 @@ fn append_assign(core: &Core, assign_to: &Core, name: &Option<Name>, imp: &mut I
             then: Box::from(append_assign(then, assign_to, name, imp)),
             el: Box::from(append_assign(el, assign_to, name, imp)),
         },
+        Core::If { cond, then } => Core::If {
+            cond: cond.clone(),
+            then: Box::from(append_assign(then, assign_to, name, imp)),
+        },
         Core::Match { expr, cases } => Core::Match {
             expr: expr.clone(),
             cases: cases
@@ -402,6 +406,23 @@ fn append_ret(core: &Core) -> Core {
             then: Box::from(append_ret(then)),
             el: Box::from(append_ret(el)),
         },
+        Core::If { cond, then } => Core::If {
+            cond: cond.clone(),
+            then: Box::from(append_ret(then)),
+        },
+        Core::With { resource, expr } => Core::With {
+            resource: resource.clone(),
+            expr: Box::from(append_ret(expr)),
+        },
+        Core::WithAs {
+            resource,
+            alias,
+            expr,
+        } => Core::WithAs {
+            resource: resource.clone(),
+            alias: alias.clone(),
+            expr: Box::from(append_ret(expr)),
+        },
         Core::Match { expr, cases } => Core::Match {
             expr: expr.clone(),
             cases: cases.iter().map(append_ret).collect(),
@@ -439,8 +460,24 @@ fn skip_assign(core: &Core) -> bool {
     skip_return(core) || matches!(core, Core::VarDef { .. } | Core::Assign { .. })
 }
 
+/// Statements which have no value: these are emitted as they are, never as operand of a return or an assignment.
 fn skip_return(core: &Core) -> bool {
-    matches!(core, Core::Return { .. } | Core::Raise { .. })
+    matches!(
+        core,
+        Core::Return { .. }
+            | Core::Raise { .. }
+            | Core::For { .. }
+            | Core::While { .. }
+            | Core::VarDef { .. }
+            | Core::Assign { .. }
+            | Core::FunDef { .. }
+            | Core::FunDefOp { .. }
+            | Core::ClassDef { .. }
+            | Core::Import { .. }
+            | Core::Break
+            | Core::Continue
+            | Core::Pass
+    )
 }
 
 #[cfg(test)]
